@@ -114,6 +114,34 @@ def routes_decided(db):
     return cached
 
 
+def fft_routes_decided(db):
+    """(cases in which the padded-FFT route == the matrix DFT was decided on values, findings) for this tree, computed once per DB"""
+    cached = getattr(db, '_c01_fft_routes', None)
+    if cached is None:
+        from ..core.report import Run
+        quiet = Run('C01', 'quick', '')
+        try:
+            n = fft_route_value_rules(quiet, db)
+            cached = (n, len(quiet.findings))
+        except AnalysisError:
+            cached = (0, 0)
+        db._c01_fft_routes = cached
+    return cached
+
+
+def defer_to_fft_routes(run, db, what, err, credits=()):
+    """A reading of focus / unfocus (shift pairing as a typestate, one FFT with norm='ortho') that cannot read this organisation defers to
+    the decision on values: focus(w, Q) == dft2(w, Q, Q * shape) and unfocus(w, Q) == idft2(...) cell by cell for even and odd lengths,
+    padded and unpadded; what the reading would establish then holds because it holds for the matrix route."""
+    n, bad = fft_routes_decided(db)
+    if not n or bad:
+        return False
+    run.info('%s does not read this organisation of the FFT route (%s); padded FFT == matrix DFT was decided on values (%d cases)' % (what, str(err)[:140], n))
+    for rule, k in credits:
+        run.credit(rule, k, '%s refused; padded FFT == matrix DFT decided on values' % what)
+    return True
+
+
 def defer_to_routes(run, db, what, err, credits=()):
     """A reading of the chirp-Z executor (pre-chirp / filter / post-chirp pattern) that cannot read this organisation defers to the decision
     on values: when the chirp-Z route equals the matrix-DFT route cell by cell (in modulus under a shift) for symbolic Q, per-axis Q and
